@@ -250,6 +250,7 @@ pub fn gen_run(rng: &mut Rng, p: &EpisodeParams) -> RunSpec {
             seed: rng.next_u64(),
         },
         mailboxes,
+        preempts: vec![],
     }
 }
 
@@ -446,6 +447,7 @@ pub fn systematic_runs(verif_seed: u64) -> Vec<RunSpec> {
                         seed: rng.next_u64(),
                     },
                     mailboxes,
+                    preempts: vec![],
                 });
             }
         }
@@ -491,6 +493,7 @@ pub fn systematic_runs(verif_seed: u64) -> Vec<RunSpec> {
             sites: vec!["*".to_string()],
             sched: SchedSpec::Policy { policy: if variant == 2 { "random".into() } else { "round-robin".into() }, switch_pct: 50, pct_depth: 2, seed: rng.next_u64() },
             mailboxes: 0,
+            preempts: vec![],
         });
     }
     out
@@ -536,6 +539,7 @@ fn spec(clients: Vec<Vec<Op>>, rng: &mut Rng, sites: Vec<String>, policy: &str) 
         sites,
         sched: SchedSpec::Policy { policy: policy.into(), switch_pct: 100, pct_depth: 2, seed: rng.next_u64() },
         mailboxes: 0,
+        preempts: vec![],
     }
 }
 
@@ -717,5 +721,107 @@ pub fn scenario_runs(k: u64, verif_seed: u64) -> Vec<RunSpec> {
                 spec(vec![wrap_ops], &mut rng, vec![], "run-to-completion"),
             ]
         }
+    }
+}
+
+// ---------------------------------------------------------------------------------------
+// Preemption episodes: instruction-granular preemption (step.rs) swept over small two-client worlds.
+// Client 0 (the preempted one) builds a set whose characters cross class and range borders; client 1 (the one that
+// runs in the gap) builds single characters of every kind. For every hook visit of client 0's build and every
+// instruction count 1..=K_MAX after it (until the next hook is reached) one run parks client 0 exactly there, lets
+// client 1 execute its whole history, and resumes client 0.
+// ---------------------------------------------------------------------------------------
+
+pub const PREEMPT_BASE: u64 = SCENARIO_BASE + 1000;
+
+pub struct PreemptPair {
+    pub victim: Vec<Op>,
+    pub intruder: Vec<Op>,
+    pub systematic: bool,
+}
+
+const PREEMPT_ALPHA: [&str; 10] = ["a", "Z", "1", "_", ":", "[", "\u{e9}", " ", "\u{663}", "\u{3b2}"];
+
+fn preempt_cfgs() -> Vec<Vec<Setter>> {
+    vec![
+        vec![Setter::Words],
+        vec![Setter::Digits, Setter::Words, Setter::Spaces],
+        vec![Setter::Digits],
+        vec![Setter::Spaces, Setter::NonWords],
+        vec![Setter::NonDigits, Setter::NonSpaces],
+        vec![Setter::Words, Setter::Repetitions],
+        vec![Setter::IgnoreCase, Setter::Words],
+        vec![Setter::Repetitions],
+        vec![Setter::Escape(false), Setter::Digits],
+        vec![],
+    ]
+}
+
+pub fn preempt_pairs(verif_seed: u64, tier: &str) -> Vec<PreemptPair> {
+    let mut out = vec![];
+    let cfgs = preempt_cfgs();
+    let s = |x: &[&str]| x.iter().map(|t| t.to_string()).collect::<Vec<String>>();
+    // systematic part: every victim that moves between two ranges of a table x every kind of intruder
+    let victims: [&[&str]; 4] = [&["a1"], &["1a"], &["aZ"], &["a 1"]];
+    let intruders: [&[&str]; 3] = [&[":", "["], &["a"], &["1", " "]];
+    for v in victims.iter() {
+        for i in intruders.iter() {
+            for c in cfgs.iter().take(2) {
+                out.push(PreemptPair {
+                    victim: plain_build(s(v), c.clone()),
+                    intruder: plain_build(s(i), c.clone()),
+                    systematic: true,
+                });
+            }
+        }
+    }
+    // seeded part
+    let mut rng = Rng::new(derive(verif_seed, &[0x5052454D, 1]));
+    let n = if tier == "thorough" { 240 } else { 8 };
+    for _ in 0..n {
+        let word = |rng: &mut Rng, max: u64| {
+            let len = 1 + rng.below(max);
+            (0..len).map(|_| *rng.pick(&PREEMPT_ALPHA)).collect::<String>()
+        };
+        let nv = 1 + rng.below(2);
+        let victim: Vec<String> = (0..nv).map(|_| word(&mut rng, 3)).collect();
+        let ni = 1 + rng.below(3);
+        let intruder: Vec<String> = (0..ni)
+            .map(|_| {
+                let m = 1 + rng.below(2);
+                word(&mut rng, m)
+            })
+            .collect();
+        let cv = rng.pick(&cfgs).clone();
+        let ci = if rng.below(3) == 0 { rng.pick(&cfgs).clone() } else { cv.clone() };
+        out.push(PreemptPair {
+            victim: plain_build(victim, cv),
+            intruder: plain_build(intruder, ci),
+            systematic: false,
+        });
+    }
+    out
+}
+
+/// One run of the sweep: client 0 is parked `steps` instructions after its `visit`-th hook call, client 1 runs its
+/// whole history in the gap. `intruder_parked_at` > 0: client 1 starts first and is itself parked at that hook
+/// visit of its build until client 0 is preempted (so it resumes in the middle of its own build).
+pub fn preempt_run(pair: &PreemptPair, hash_seeds: (u64, u64), visit: u64, steps: u32, intruder_parked_at: u64) -> RunSpec {
+    let mut preempts = vec![];
+    if intruder_parked_at > 0 {
+        preempts.push(Preempt { client: 1, visit: intruder_parked_at, steps: 0, to: 0 });
+    }
+    if visit > 0 {
+        preempts.push(Preempt { client: 0, visit, steps, to: 1 });
+    }
+    RunSpec {
+        clients: vec![
+            ClientSpec { hash_seed: hash_seeds.0, ops: pair.victim.clone() },
+            ClientSpec { hash_seed: hash_seeds.1, ops: pair.intruder.clone() },
+        ],
+        sites: vec![],
+        sched: SchedSpec::List { decisions: vec![if intruder_parked_at > 0 { 1 } else { 0 }] },
+        mailboxes: 0,
+        preempts,
     }
 }
